@@ -66,6 +66,9 @@ class Desc:
     def trace_for_replay(self, t, l):
         return {k: (val[:l] if k == "steps" else val) for k, val in t.items() if k != "id"}
 
+    def extras(self, prop, tier, out):
+        """anything else to attach to the evidence (runs after the verdicts are in)"""
+
     def sample(self, t):
         return {k: (v[:10] if k == "steps" else v) for k, v in t.items() if k != "id"}
 
@@ -212,6 +215,7 @@ def run_check(d, prop, tier):
     out.notes["acceptor_states"] = st["states"]
     out.notes["simulation_states"] = sim_states
     out.assumptions += list(d.assumptions)
+    d.extras(prop, tier, out)
     return out.finish()
 
 
